@@ -1,33 +1,50 @@
 #!/usr/bin/env python3
-"""tools/mutate.py <prop> <file> <old> <new> [--count N] [-- extra check args]
-Apply a textual mutant to /repo/<file> (exactly one occurrence unless --count), run ./check <prop>,
-restore the file with git checkout. Prints DETECTED / MISSED / ERROR."""
-import sys, subprocess, os, time
+"""tools/mutate.py <props> <file> <old> <new> [--count N] [--patch file.diff] [-- extra check args]
+Sensitivity test: copy /repo's working tree to a private scratch directory, apply a textual mutant
+(<old> -> <new> in <file>, exactly --count occurrences) or a patch, run ./check for each property in the
+comma list <props> with VERIF_REPO pointing at the copy and VERIF_OUT at a scratch dir (so /repo, the
+committed evidence and replays are never touched), then delete the copy. Safe to run concurrently.
+Prints DETECTED / MISSED / ERROR per property."""
+import sys, subprocess, os, time, tempfile, shutil
 args = sys.argv[1:]
 extra = []
 if "--" in args:
     i = args.index("--"); extra = args[i+1:]; args = args[:i]
 count = 1
+patch = None
 if "--count" in args:
     i = args.index("--count"); count = int(args[i+1]); del args[i:i+2]
-prop, f, old, new = args[:4]
-p = os.path.join("/repo", f)
-s = open(p).read()
-if s.count(old) != count:
-    print("ERROR: %d occurrences of old text (wanted %d)" % (s.count(old), count)); sys.exit(3)
+if "--patch" in args:
+    i = args.index("--patch"); patch = os.path.abspath(args[i+1]); del args[i:i+2]
+props = args[0].split(",")
+base = "/dev/shm" if os.path.isdir("/dev/shm") else None
+tmp = tempfile.mkdtemp(prefix="mut-", dir=base)
+rc_all = 0
 try:
-    open(p, "w").write(s.replace(old, new))
-    t0 = time.time()
-    props = prop.split(",")
-    res = []
+    repo = os.path.join(tmp, "repo")
+    os.makedirs(repo)
+    files = subprocess.run(["git", "-C", "/repo", "ls-files", "-z"], stdout=subprocess.PIPE, check=True).stdout
+    subprocess.run(["rsync", "-a", "--from0", "--files-from=-", "/repo/", repo + "/"], input=files, check=True)
+    if patch:
+        r = subprocess.run(["patch", "-p1", "-s", "-d", repo, "-i", patch])
+        if r.returncode != 0:
+            print("ERROR: patch does not apply"); sys.exit(3)
+    else:
+        f, old, new = args[1:4]
+        p = os.path.join(repo, f)
+        s = open(p).read()
+        if s.count(old) != count:
+            print("ERROR: %d occurrences of old text (wanted %d)" % (s.count(old), count)); sys.exit(3)
+        open(p, "w").write(s.replace(old, new))
+    env = dict(os.environ, VERIF_REPO=repo, VERIF_OUT=os.path.join(tmp, "out"))
     for pr in props:
-        r = subprocess.run(["/verif/check", pr] + extra, stdout=subprocess.PIPE, stderr=subprocess.STDOUT, text=True)
+        t0 = time.time()
+        r = subprocess.run(["/verif/check", pr] + extra, stdout=subprocess.PIPE, stderr=subprocess.STDOUT, text=True, env=env)
         out = r.stdout
         v = [l for l in out.split("\n") if l.startswith(("VIOLATION", "violation detail", "HARNESS", "KNOWN"))]
-        res.append((pr, r.returncode, v[:4], out[-300:] if r.returncode == 2 else ""))
-    for pr, rc, v, tail in res:
-        print("%s %s rc=%d %.0fs" % ({0: "MISSED", 1: "DETECTED"}.get(rc, "ERROR"), pr, rc, time.time() - t0))
-        for l in v: print("   ", l[:400])
-        if tail: print(tail)
+        print("%s %s rc=%d %.0fs" % ({0: "MISSED", 1: "DETECTED"}.get(r.returncode, "ERROR"), pr, r.returncode, time.time() - t0))
+        for l in v[:4]: print("   ", l[:400])
+        if r.returncode == 2: print(out[-600:])
+        if r.returncode == 0: print("   ", out.strip().split("\n")[-1][:300])
 finally:
-    subprocess.run(["git", "-C", "/repo", "checkout", "--", f])
+    shutil.rmtree(tmp, ignore_errors=True)
